@@ -21,7 +21,7 @@ class PathOutcome:
 
 
 def explore(run: Callable[[PathState], Any], max_paths=200000, check_timeout_ms=3000, on_path=None,
-            initial=None, stop_when_frontier=None):
+            initial=None, stop_when_frontier=None, budget=None):
     """Run `run(ps)` on every feasible path.  `run` returns an arbitrary result object.
     With stop_when_frontier=n the exploration stops as soon as n subtrees are pending and returns
     (outcomes, pending prefixes)."""
@@ -30,6 +30,8 @@ def explore(run: Callable[[PathState], Any], max_paths=200000, check_timeout_ms=
     n = 0
     while work:
         if stop_when_frontier is not None and len(work) >= stop_when_frontier:
+            return outcomes, work
+        if budget is not None and n >= budget:
             return outcomes, work
         prefix = work.pop(0) if stop_when_frontier is not None else work.pop()
         ps = PathState(prefix, check_timeout_ms)
@@ -50,7 +52,7 @@ def explore(run: Callable[[PathState], Any], max_paths=200000, check_timeout_ms=
                 on_path(out)
             else:
                 outcomes.append(out)
-    if stop_when_frontier is not None:
+    if stop_when_frontier is not None or budget is not None:
         return outcomes, []
     return outcomes
 
